@@ -145,6 +145,25 @@ impl C03 {
     }
 }
 
+/// cases the model peer cannot encode at all (they are named in the evidence: nothing is skipped silently)
+pub fn unmodelled_cases(ctx: &AllCtx, cases: &[Case]) -> Vec<String> {
+    let mut v = Vec::new();
+    for c in cases {
+        let mut ok = false;
+        for k in 0..4u64 {
+            let mut rng = Rng::new(crate::rng::run_seed(1, &c.label(), 0xCA11 + k));
+            if encode_case(ctx, c, &mut rng, &Knobs::default()).is_some() {
+                ok = true;
+                break;
+            }
+        }
+        if !ok {
+            v.push(c.label());
+        }
+    }
+    v
+}
+
 pub fn model_for<'a>(ctx: &'a AllCtx, c: &Case) -> &'a Model<'static> {
     match c.login {
         Some(v) => ctx.login_model(v),
@@ -528,6 +547,10 @@ impl Check for C03 {
         o
     }
 
+    fn extra_evidence(&self) -> Value {
+        json!({"messages_the_model_peer_cannot_encode": unmodelled_cases(&self.ctx, &self.cases),
+               "note_unmodelled": "these get frames with their opcode and arbitrary bodies instead of field-targeted faults"})
+    }
     fn shrink(&self, sc: &Value) -> Vec<Value> {
         let mut out = Vec::new();
         if sc["pre"].as_array().map(|a| !a.is_empty()).unwrap_or(false) {
